@@ -3,7 +3,8 @@
   `cdf(k) ≥ p`.  The three families here (DiscreteUniform, Bernoulli, Geometric) all use the
   trait-default `DiscreteCDF::inverse_cdf` (doubling loop + `internal::integral_bisection_search`);
   the algorithm is analysed once in `Statrs.Lemmas.IntBisect` and each family is connected to it by
-  `X_inverse_cdf_eq_dinv`.  Carrier ℝ, `0 < p < 1` (this routes around the panic branch), under the
+  `X_inverse_cdf_eq_dinv`.  The analysis needs only that the cdf is non-decreasing (`Adm`): since the
+  early exit `f(ub) == z` was removed from `integral_bisection_search`, plateaus are handled.  Carrier ℝ, `0 < p < 1` (this routes around the panic branch), under the
   constructor's acceptance predicate plus the range hypotheses named in each statement (they bound
   the number of loop iterations by the fuel and hold for every `i64`/`u64` value).
 -/
@@ -78,31 +79,38 @@ theorem discrete_uniform_cdf_clamp (d : DiscreteUniform) (h : d.f_min ≤ d.f_ma
         div_nonneg (by linarith) hden.le
       rw [if_neg (not_lt.mpr h01), min_eq_right h01, max_eq_right h00]
 
-theorem discrete_uniform_adm (d : DiscreteUniform) (h : d.f_min ≤ d.f_max) (p : ℝ) (hp0 : 0 < p) (hp1 : p < 1)
-    (B : Int) : Adm (DiscreteUniform.cdf (α := ℝ) d) p B := by
+/-- the DiscreteUniform cdf is non-decreasing (all the default `inverse_cdf` needs) -/
+theorem discrete_uniform_adm (d : DiscreteUniform) (h : d.f_min ≤ d.f_max) (B : Int) :
+    Adm (DiscreteUniform.cdf (α := ℝ) d) B := by
   have hab : (d.f_min : ℝ) ≤ d.f_max := by exact_mod_cast h
   have hden : (0:ℝ) < (d.f_max : ℝ) - d.f_min + 1 := by linarith
   constructor
-  · intro a b _ hle
-    rw [discrete_uniform_cdf_clamp d h, discrete_uniform_cdf_clamp d h]
-    apply max_le_max le_rfl
-    apply min_le_min le_rfl
-    apply div_le_div_of_nonneg_right _ hden.le
-    have : (a : ℝ) ≤ b := by exact_mod_cast hle
-    linarith
-  · intro k _ hk
-    rw [discrete_uniform_cdf_clamp d h] at hk ⊢
-    have hg : min 1 (((k : ℝ) - d.f_min + 1) / ((d.f_max : ℝ) - d.f_min + 1)) ≤ p := by
-      rw [← hk]; exact le_max_right _ _
-    have hg' : ((k : ℝ) - d.f_min + 1) / ((d.f_max : ℝ) - d.f_min + 1) ≤ p := by
-      rcases min_le_iff.mp hg with h1 | h1
-      · linarith
-      · exact h1
-    have hlt : (((k - 1 : Int) : ℝ) - d.f_min + 1) / ((d.f_max : ℝ) - d.f_min + 1)
-        < ((k : ℝ) - d.f_min + 1) / ((d.f_max : ℝ) - d.f_min + 1) := by
-      apply div_lt_div_of_pos_right _ hden
-      push_cast; linarith
-    exact max_lt hp0 (lt_of_le_of_lt (min_le_right _ _) (lt_of_lt_of_le hlt hg'))
+  intro a b _ hle
+  rw [discrete_uniform_cdf_clamp d h, discrete_uniform_cdf_clamp d h]
+  apply max_le_max le_rfl
+  apply min_le_min le_rfl
+  apply div_le_div_of_nonneg_right _ hden.le
+  have : (a : ℝ) ≤ b := by exact_mod_cast hle
+  linarith
+
+/-- the DiscreteUniform cdf has no plateau at a level `0 < p < 1` (no longer needed by the
+    `inverse_cdf` theorems — the default bisection now handles plateaus — kept as a fact about the cdf) -/
+theorem discrete_uniform_cdf_noflat (d : DiscreteUniform) (h : d.f_min ≤ d.f_max) (p : ℝ) (hp0 : 0 < p) (hp1 : p < 1)
+    (k : Int) (hk : DiscreteUniform.cdf (α := ℝ) d k = p) : DiscreteUniform.cdf (α := ℝ) d (k - 1) < p := by
+  have hab : (d.f_min : ℝ) ≤ d.f_max := by exact_mod_cast h
+  have hden : (0:ℝ) < (d.f_max : ℝ) - d.f_min + 1 := by linarith
+  rw [discrete_uniform_cdf_clamp d h] at hk ⊢
+  have hg : min 1 (((k : ℝ) - d.f_min + 1) / ((d.f_max : ℝ) - d.f_min + 1)) ≤ p := by
+    rw [← hk]; exact le_max_right _ _
+  have hg' : ((k : ℝ) - d.f_min + 1) / ((d.f_max : ℝ) - d.f_min + 1) ≤ p := by
+    rcases min_le_iff.mp hg with h1 | h1
+    · linarith
+    · exact h1
+  have hlt : (((k - 1 : Int) : ℝ) - d.f_min + 1) / ((d.f_max : ℝ) - d.f_min + 1)
+      < ((k : ℝ) - d.f_min + 1) / ((d.f_max : ℝ) - d.f_min + 1) := by
+    apply div_lt_div_of_pos_right _ hden
+    push_cast; linarith
+  exact max_lt hp0 (lt_of_le_of_lt (min_le_right _ _) (lt_of_lt_of_le hlt hg'))
 
 /-- DiscreteUniform (`min ≤ max`, both in the `i64` range): for `0 < p < 1`, `inverse_cdf p` is the
     smallest integer `k` with `cdf k ≥ p`. -/
@@ -116,7 +124,7 @@ theorem discrete_uniform_inverse_cdf_smallest (d : DiscreteUniform) (h : d.f_min
     unfold DiscreteUniform.cdf; rw [if_pos hj]; norm_num; exact hp0
   have hK : p ≤ DiscreteUniform.cdf (α := ℝ) d d.f_max := by
     unfold DiscreteUniform.cdf; rw [if_neg (by omega), if_pos le_rfl]; norm_num; exact hp1.le
-  have key := dinv_spec (discrete_uniform_adm d h p hp0 hp1 (min d.f_min 2)) (DiscreteUniform.min (α := ℝ) d)
+  have key := dinv_spec (discrete_uniform_adm d h (min d.f_min 2)) (DiscreteUniform.min (α := ℝ) d)
     (DiscreteUniform.max (α := ℝ) d) d.f_max (min_le_right _ _) (min_le_left _ _)
     (by unfold DiscreteUniform.min; omega) (fun j _ hj => hbelow j hj)
     ((min_le_left _ _).trans h) hK (by omega) hp0 hp1
@@ -155,22 +163,15 @@ theorem bernoulli_inverse_cdf_eq_dinv (d : Bernoulli ℝ) (p : ℝ) :
   · generalize dloop (Bernoulli.cdf d) loopFuel p 2 2 = r
     cases r <;> rfl
 
-theorem bernoulli_adm (d : Bernoulli ℝ) (h0 : 0 ≤ d.f_b.f_p) (p : ℝ) (hp1 : p < 1) :
-    Adm (Bernoulli.cdf d) p 0 := by
+theorem bernoulli_adm (d : Bernoulli ℝ) (h0 : 0 ≤ d.f_b.f_p) : Adm (Bernoulli.cdf d) 0 := by
   constructor
-  · intro a b _ hle
-    unfold Bernoulli.cdf Binomial.p
-    split_ifs with h1 h2 h2
-    · exact le_rfl
-    · omega
-    · norm_num; exact h0
-    · exact le_rfl
-  · intro k hk hf
-    exfalso
-    unfold Bernoulli.cdf at hf
-    rw [if_pos (by omega)] at hf
-    norm_num at hf
-    linarith
+  intro a b _ hle
+  unfold Bernoulli.cdf Binomial.p
+  split_ifs with h1 h2 h2
+  · exact le_rfl
+  · omega
+  · norm_num; exact h0
+  · exact le_rfl
 
 /-- Bernoulli (`Binomial p 1`, `0 ≤ p ≤ 1`): for `0 < q < 1`, `inverse_cdf q` is the smallest
     `k ≥ 0` with `cdf k ≥ q`. -/
@@ -181,7 +182,7 @@ theorem bernoulli_inverse_cdf_smallest (d : Bernoulli ℝ) (hn : d.f_b.f_n = 1) 
   rw [bernoulli_inverse_cdf_eq_dinv]
   have hK : q ≤ Bernoulli.cdf d 1 := by
     unfold Bernoulli.cdf; rw [if_pos le_rfl]; norm_num; exact hq1.le
-  exact dinv_spec (bernoulli_adm d h0 q hq1) (Bernoulli.min d) (Bernoulli.max d) 1 (by norm_num)
+  exact dinv_spec (bernoulli_adm d h0) (Bernoulli.min d) (Bernoulli.max d) 1 (by norm_num)
     (by unfold Bernoulli.min; norm_num) (by unfold Bernoulli.min; norm_num)
     (fun j hj hj' => by unfold Bernoulli.min at hj'; omega) (by norm_num) hK (by norm_num) hq0 hq1
 
@@ -232,16 +233,12 @@ theorem geometric_cdf_strictMono (d : Geometric ℝ) (h0 : 0 < d.f_p) (h1 : d.f_
     Real.exp_lt_exp.mpr (by nlinarith)
   linarith
 
-theorem geometric_adm (d : Geometric ℝ) (h0 : 0 < d.f_p) (h1 : d.f_p < 1) (p : ℝ) :
-    Adm (Geometric.cdf d) p 0 := by
+theorem geometric_adm (d : Geometric ℝ) (h0 : 0 < d.f_p) (h1 : d.f_p < 1) : Adm (Geometric.cdf d) 0 := by
   constructor
-  · intro a b _ hle
-    rcases lt_or_eq_of_le hle with h | h
-    · exact (geometric_cdf_strictMono d h0 h1 a b h).le
-    · rw [h]
-  · intro k _ hk
-    rw [← hk]
-    exact geometric_cdf_strictMono d h0 h1 (k - 1) k (by omega)
+  intro a b _ hle
+  rcases lt_or_eq_of_le hle with h | h
+  · exact (geometric_cdf_strictMono d h0 h1 a b h).le
+  · rw [h]
 
 /-- Geometric, `0 < p < 1` (the constructor also accepts `p = 1`, where the model's `ln(1-p)` is
     junk over ℝ): for `0 < q < 1`, if the quantile is representable — some `K ≤ 2^64` has
@@ -251,7 +248,7 @@ theorem geometric_inverse_cdf_smallest_partial (d : Geometric ℝ) (h0 : 0 < d.f
     q ≤ Geometric.cdf d (Geometric.inverse_cdf d q) ∧
       ∀ j : Int, 0 ≤ j → j < Geometric.inverse_cdf d q → Geometric.cdf d j < q := by
   rw [geometric_inverse_cdf_eq_dinv]
-  refine dinv_spec (geometric_adm d h0 h1 q) (Geometric.min d) (Geometric.max d) K (by norm_num)
+  refine dinv_spec (geometric_adm d h0 h1) (Geometric.min d) (Geometric.max d) K (by norm_num)
     (by unfold Geometric.min; norm_num) (by unfold Geometric.min; norm_num)
     (fun j hj hj' => ?_) hK0 hK hK2 hq0 hq1
   unfold Geometric.min at hj'
@@ -301,7 +298,7 @@ theorem bernoulli_inverse_cdf_nonneg (d : Bernoulli ℝ) (hn : d.f_b.f_n = 1) (h
   rw [bernoulli_inverse_cdf_eq_dinv]
   have hK : q ≤ Bernoulli.cdf d 1 := by
     unfold Bernoulli.cdf; rw [if_pos le_rfl]; norm_num; exact hq1.le
-  have := dinv_ge (bernoulli_adm d h0 q hq1) (Bernoulli.min d) (Bernoulli.max d) 1 (by norm_num)
+  have := dinv_ge (bernoulli_adm d h0) (Bernoulli.min d) (Bernoulli.max d) 1 (by norm_num)
     (by unfold Bernoulli.min; norm_num) (by unfold Bernoulli.min; norm_num)
     (fun j hj hj' => by unfold Bernoulli.min at hj'; omega) (by norm_num) hK (by norm_num) hq0 hq1
   unfold Bernoulli.min at this
